@@ -97,6 +97,7 @@ PREAMBLE = ("Definition tree (i : nat) : expr float :=\n  match i with\n" +
             "  match o with\n"
             "  | Res r' fc' it' cv' => Z.eqb code 0%Z && PrimFloat.eqb r' r && Z.eqb fc' fc && Z.eqb it' it && Bool.eqb cv' cv\n"
             "  | ErrArg => Z.eqb code 1%Z | ErrSign => Z.eqb code 2%Z | ErrNoConv => Z.eqb code 3%Z\n"
+            "  | ErrZeroDiv => Z.eqb code 4%Z\n"
             "  end.\n"
             "Definition bm_eqb (o : @bm_outcome float) (e : Z * float * float * Z * Z) : bool :=\n"
             "  let '(code, x, fv, st, n) := e in\n"
@@ -129,10 +130,20 @@ def call(fn, *a, **kw):
         return (2 if "different signs" in str(e) else 1, 0.0, 0, 0, False)
     except RuntimeError:
         return (3, 0.0, 0, 0, False)
+    except ZeroDivisionError:      # Numba's Python error model: float division by 0.0 raises
+        return (4, 0.0, 0, 0, False)
+
+
+def fl(x):
+    return flit(x) + "%float"
+
+
+def zl(n):
+    return zlit(n) + "%Z"
 
 
 def enc(o):
-    return tup(zlit(o[0]), flit(o[1]), zlit(o[2]), zlit(o[3]), blit(o[4]))
+    return tup(zl(o[0]), fl(o[1]), zl(o[2]), zl(o[3]), blit(o[4]))
 
 
 def sgn(v):
@@ -236,7 +247,8 @@ def run(ctx):
     from quantecon.optimize.nelder_mead import nelder_mead
     thorough = ctx.tier == "thorough"
     rng = ctx.rng
-    ctx.proofs()
+    # float witnesses (Findings): Print Assumptions lists the PrimFloat primitives unqualified because Props.v imports PrimFloat
+    ctx.proofs(extra_axioms=("float", "add", "sub", "mul", "div", "opp", "abs", "ltb", "leb", "eqb", "sqrt"))
     ctx.trusted.append("float objective: jitted function and Coq term generated from the same expression tree "
                        "(harness/c17.py TREES); Numba/LLVM assumed not to reorder/contract float operations "
                        "(checked: jitted objective == python objective on every reported root)")
@@ -259,8 +271,8 @@ def run(ctx):
                 if rng.random() < 0.03: maxiter = rng.choice([0, -1])
                 F, J = funcs(fam)
                 out = call(solver, J, a, b, args=tuple(ps), xtol=xtol, rtol=rtol, maxiter=maxiter, disp=disp)
-                cases.append(tup("%d%%nat" % fam, flist(ps), tup(flit(a), flit(b), flit(xtol), flit(rtol)),
-                                 zlit(maxiter), blit(disp), enc(out)))
+                cases.append(tup("%d%%nat" % fam, flist(ps), tup(fl(a), fl(b), fl(xtol), fl(rtol)),
+                                 zl(maxiter), blit(disp), enc(out)))
                 inp = {"solver": solver_name, "family": fam, "params": list(ps), "a": a, "b": b, "xtol": xtol,
                        "rtol": rtol, "maxiter": maxiter, "disp": disp, "mode": mode}
                 if stream == "underflow":
@@ -269,7 +281,7 @@ def run(ctx):
                 ctx.case((solver_name, fam, ps, a, b, xtol, rtol, maxiter, disp), nontrivial=(out[0] == 0 and out[3] >= 2),
                          sample={"call": inp, "impl": out})
                 ctx.count("%s:mode=%s" % (solver_name, mode))
-                ctx.count("%s:outcome=%s" % (solver_name, ["result", "ValueError(arg)", "ValueError(sign)", "RuntimeError"][out[0]]
+                ctx.count("%s:outcome=%s" % (solver_name, ["result", "ValueError(arg)", "ValueError(sign)", "RuntimeError", "ZeroDivisionError"][out[0]]
                                               + ("" if out[0] else (",converged" if out[4] else ",not-converged"))))
                 # ---------------- oracle
                 kind_sfx = "rootfind_sign_product_underflow" if stream == "underflow" else None
@@ -283,6 +295,11 @@ def run(ctx):
                 if same != (out[0] == 2):
                     ctx.fail(kind_sfx or "rootfind_same_sign_raise", "ValueError iff f(a), f(b) have the same strict sign",
                              inp, out, {"fa": fa, "fb": fb})
+                    continue
+                if out[0] == 4:
+                    zi = dict(inp, zero_division=True)
+                    ctx.fail("brentq_zero_division_underflow" if stream == "underflow" else "rootfind_zero_division",
+                             "ZeroDivisionError on a bracket with a sign change", zi, out, "a root or converged=False/RuntimeError")
                     continue
                 if out[0] == 3 and not disp:
                     ctx.fail(kind_sfx or "rootfind_disp", "RuntimeError although disp=False", inp, out, None)
@@ -311,8 +328,8 @@ def run(ctx):
             inp, out = meta[i]
             ctx.mismatch("C17.Model.%s (PrimFloat instance) vs root_finding.%s" % (solver_name, solver_name), inp, out,
                          ctx.coq_eval(IMPORTS, "%s (obj %d%%nat %s) %s %s %s %s %s %s" % (
-                             solver_name, inp["family"], flist(inp["params"]), flit(inp["a"]), flit(inp["b"]),
-                             flit(inp["xtol"]), flit(inp["rtol"]), zlit(inp["maxiter"]), blit(inp["disp"])), preamble=PREAMBLE))
+                             solver_name, inp["family"], flist(inp["params"]), fl(inp["a"]), fl(inp["b"]),
+                             fl(inp["xtol"]), fl(inp["rtol"]), zl(inp["maxiter"]), blit(inp["disp"])), preamble=PREAMBLE))
 
     # ================================================================ newton / halley / secant
     F2, J2 = funcs(2); F3, J3 = funcs(3); F4, J4 = funcs(4)
@@ -337,7 +354,9 @@ def run(ctx):
             if d == 0: return False, p0
             step = v / d
             if kind == "halley":
-                step = step / (1.0 - 0.5 * step * fpp(p0) / d)
+                den = 1.0 - 0.5 * step * fpp(p0) / d
+                if den == 0: return "zerodiv", p0
+                step = step / den
             p = p0 - step
             if abs(p - p0) < tol: return True, p
             p0 = p
@@ -360,6 +379,8 @@ def run(ctx):
                 ps = (rng.choice([1.0, -2.0, 0.0]), 0.0, rng.choice([1.0, 0.0]), 0.0); x0 = 0.0; root_known = None
             elif mode == "exactroot":
                 x0 = r1
+            if kind == "halley" and rng.random() < 0.04:   # f = x^2 + 3 at x0 = 1: Halley denominator exactly 0
+                ps = (3.0, 0.0, 1.0, 0.0); x0 = 1.0; root_known = None; mode = "zerodiv"
             tol = rng.choice([1.48e-8, 1e-10, 1e-6, 1e-3, 1e-12])
             maxiter = rng.choice([50, 50, 50, 1, 2, 3, 4, 10]) if mode != "fewiter" else rng.choice([1, 2, 3])
             disp = rng.random() < 0.5
@@ -374,13 +395,13 @@ def run(ctx):
                 coq = "newton_halley (obj 2 ps) (obj 3 ps) (obj 4 ps) tol x0 mi disp"
             else:
                 out = call(RF.newton_secant, J2, x0, args=ps, tol=tol, maxiter=maxiter, disp=disp)
-                coq = "newton_secant (obj 2 ps) tol %s%%float x0 mi disp" % flit(c4)
-            cases.append(tup(flist(ps), flit(x0), flit(tol), zlit(maxiter), blit(disp), enc(out)))
+                coq = "newton_secant (obj 2 ps) tol %s x0 mi disp" % fl(c4)
+            cases.append(tup(flist(ps), fl(x0), fl(tol), zl(maxiter), blit(disp), enc(out)))
             inp = {"solver": kind, "params": list(ps), "x0": x0, "tol": tol, "maxiter": maxiter, "disp": disp, "mode": mode}
             meta.append((inp, out, coq))
             ctx.case((kind, ps, x0, tol, maxiter, disp), nontrivial=(out[0] == 0 and out[3] >= 2), sample={"call": inp, "impl": out})
             ctx.count("%s:mode=%s" % (kind, mode))
-            ctx.count("%s:outcome=%s" % (kind, ["result", "ValueError", "ValueError", "RuntimeError"][out[0]]
+            ctx.count("%s:outcome=%s" % (kind, ["result", "ValueError", "ValueError", "RuntimeError", "ZeroDivisionError"][out[0]]
                                           + ("" if out[0] else (",converged" if out[4] else ",not-converged"))))
             # ---------------- oracle
             if tol <= 0 or maxiter < 1:
@@ -390,6 +411,11 @@ def run(ctx):
             fired, pref = newton_ref(kind, ps, x0, tol, maxiter)
             if out[0] == 1 or out[0] == 2:
                 ctx.fail("newton_spurious_valueerror", "ValueError on valid arguments", inp, out, None)
+            elif out[0] == 4 or fired == "zerodiv":
+                # exact zero denominator of the Halley correction: explicit error outcome, not a property violation
+                if not (out[0] == 4 and fired == "zerodiv"):
+                    ctx.fail("newton_zero_division", "ZeroDivisionError iff the Halley denominator is exactly 0", inp, out, fired)
+                ctx.count("%s:zero-division" % kind)
             elif out[0] == 3:
                 if fired or not disp:
                     ctx.fail("newton_flag", "RuntimeError although the stopping criterion fired or disp=False", inp, out, fired)
@@ -447,8 +473,8 @@ def run(ctx):
             out = (0, float(xf), float(fval), int(info[0]), int(info[1]))
         except ValueError:
             out = (1, 0.0, 0.0, 0, 0)
-        cases.append(tup("%d%%nat" % fam, flist(ps), flit(a), flit(b), flit(xtol), zlit(maxiter),
-                         tup(zlit(out[0]), flit(out[1]), flit(out[2]), zlit(out[3]), zlit(out[4]))))
+        cases.append(tup("%d%%nat" % fam, flist(ps), fl(a), fl(b), fl(xtol), zl(maxiter),
+                         tup(zl(out[0]), fl(out[1]), fl(out[2]), zl(out[3]), zl(out[4]))))
         inp = {"solver": "brent_max", "family": fam, "params": list(ps), "a": a, "b": b, "xtol": xtol, "maxiter": maxiter, "mode": mode}
         meta.append((inp, out))
         ctx.case(("brent_max", fam, ps, a, b, xtol, maxiter), nontrivial=(out[0] == 0 and out[4] >= 3), sample={"call": inp, "impl": out})
@@ -482,7 +508,7 @@ def run(ctx):
                 ctx.fail("brent_max_accuracy", "status 0 but |xf - maximiser| > xtol + 2*sqrt_eps*|xf|", inp, out,
                          {"maximiser": float(xstar), "bound": float(bound)})
     ok = ("fun c => let '(fam, ps, a, b, xtol, mi, e) := c in "
-          "bm_eqb (brent_max (obj fam ps) %s%%float %s%%float a b xtol mi) e" % (flit(sqrt_eps), flit(golden)))
+          "bm_eqb (brent_max (obj fam ps) %s %s a b xtol mi) e" % (fl(sqrt_eps), fl(golden)))
     bad = ctx.coq_check("brent_max", IMPORTS, "nat * list float * float * float * float * Z * (Z * float * float * Z * Z)",
                         ok, cases, chunk=60, preamble=PREAMBLE)
     for i in bad:
